@@ -116,15 +116,21 @@ theorem subst1_eq_xreplace (v : Variant) (hv : v.sound) (x : Sym) (a : Expr) :
       have hp : v.poolSumProtectsBound = true := hv.2
       by_cases hx : x ∈ names ixs
       · rw [subst1_psum_mem v hv x a b ixs hx]
-        simp [xreplace, hp, hx, xreplace_nil v hv b]
+        simp [xreplace, hp, hx, xreplace_nil v hv b, xreplaceBinders_nil v hv ixs]
       · rw [subst1_psum_not_mem v hv x a b ixs hx]
-        simp [xreplace, hp, hx, subst1_eq_xreplace v hv x a b]
+        simp [xreplace, hp, hx, subst1_eq_xreplace v hv x a b, subst1Binders_eq_xreplace v hv x a ixs]
   | .idx f es => by simp [subst1, xreplace, subst1List_eq_xreplace v hv x a es]
 theorem subst1List_eq_xreplace (v : Variant) (hv : v.sound) (x : Sym) (a : Expr) :
     ∀ es : List Expr, subst1List v x a es = xreplaceList v es [(x, a)]
   | [] => by simp [subst1List, xreplaceList]
   | e :: es => by
       simp [subst1List, xreplaceList, subst1_eq_xreplace v hv x a e, subst1List_eq_xreplace v hv x a es]
+theorem subst1Binders_eq_xreplace (v : Variant) (hv : v.sound) (x : Sym) (a : Expr) :
+    ∀ ixs : List (Sym × List Expr), subst1Binders v x a ixs = xreplaceBinders v ixs [(x, a)]
+  | [] => by simp [subst1Binders, xreplaceBinders]
+  | (i, pool) :: rest => by
+      simp [subst1Binders, xreplaceBinders, subst1List_eq_xreplace v hv x a pool,
+        subst1Binders_eq_xreplace v hv x a rest]
 end
 
 /-! ### the class table -/
@@ -259,7 +265,8 @@ theorem eqvWith_mapAttrs (f : Attr → Attr) :
   | .pow x n, b => by cases b <;> simp [Expr.eqvWith, mapAttrs, eqvWith_mapAttrs f x]
   | .app g es, b => by cases b <;> simp [Expr.eqvWith, mapAttrs, eqvWithList_mapAttrs f es]
   | .node c es t, b => by cases b <;> simp [Expr.eqvWith, mapAttrs, eqvWithList_mapAttrs f es]
-  | .psum x ixs, b => by cases b <;> simp [Expr.eqvWith, mapAttrs, eqvWith_mapAttrs f x]
+  | .psum x ixs, b => by
+      cases b <;> simp [Expr.eqvWith, mapAttrs, eqvWith_mapAttrs f x, eqvWithBinders_mapAttrs f ixs]
   | .idx g es, b => by cases b <;> simp [Expr.eqvWith, mapAttrs, eqvWithList_mapAttrs f es]
 theorem eqvWithList_mapAttrs (f : Attr → Attr) :
     ∀ as bs : List Expr, Expr.eqvWithList f as bs = Expr.eqvWithList id (mapAttrsList f as) (mapAttrsList f bs)
@@ -268,6 +275,16 @@ theorem eqvWithList_mapAttrs (f : Attr → Attr) :
       cases bs with
       | nil => simp [Expr.eqvWithList, mapAttrsList]
       | cons b bs => simp [Expr.eqvWithList, mapAttrsList, eqvWith_mapAttrs f a b, eqvWithList_mapAttrs f as bs]
+theorem eqvWithBinders_mapAttrs (f : Attr → Attr) :
+    ∀ as bs : List (Sym × List Expr),
+      Expr.eqvWithBinders f as bs = Expr.eqvWithBinders id (mapAttrsBinders f as) (mapAttrsBinders f bs)
+  | [], bs => by cases bs <;> simp [Expr.eqvWithBinders, mapAttrsBinders]
+  | (i, p) :: as, bs => by
+      cases bs with
+      | nil => simp [Expr.eqvWithBinders, mapAttrsBinders]
+      | cons b bs =>
+        obtain ⟨j, q⟩ := b
+        simp [Expr.eqvWithBinders, mapAttrsBinders, eqvWithList_mapAttrs f p q, eqvWithBinders_mapAttrs f as bs]
 end
 
 end Ampverif.Lemmas.C14
